@@ -89,3 +89,39 @@ pub fn gen_autosql(r: &mut Rng) -> String {
     let hex: String = s.bytes().map(|b| format!("{:02x}", b)).collect();
     format!("hex={}", hex)
 }
+
+/// C10: a well-formed file whose LAST structure is a non-leaf R-tree node (node placement is free in the
+/// format: nodes are found through pointers).  Built by relocating the last level-1 node of a file written
+/// by bigtools to the end of the file and patching its parent's pointer.
+/// args: n=<number of values, >=5>
+pub fn run_nonleaf_at_eof(a: &Args) -> Result<(), String> {
+    use bigtools::BigWigRead;
+    let n: u32 = a.get("n").map(|s| s.parse().unwrap()).unwrap_or(5);
+    let vals: Vec<(u32, u32, f32)> = (0..n).map(|i| (i * 10, i * 10 + 5, 1.0 + i as f32)).collect();
+    let tf = crate::bw::write_bw(&vals, n * 10 + 10, 1, 2, Some(vec![]), false, false)?;
+    let mut bytes = std::fs::read(tf.path()).map_err(|e| e.to_string())?;
+    let rd64 = |b: &Vec<u8>, at: usize| u64::from_le_bytes(b[at..at + 8].try_into().unwrap());
+    let rd16 = |b: &Vec<u8>, at: usize| u16::from_le_bytes(b[at..at + 2].try_into().unwrap());
+    let index = rd64(&bytes, 24) as usize;
+    let root = index + 48;
+    if bytes[root] != 0 { return Err("test setup: root is a leaf; need more values".into()); }
+    let rc = rd16(&bytes, root + 2) as usize;
+    let ptr_at = root + 4 + 24 * (rc - 1) + 16;
+    let child = rd64(&bytes, ptr_at) as usize;
+    if bytes[child] != 0 { return Err("test setup: root's children are leaves; need >= 5 values with block_size 2".into()); }
+    let cc = rd16(&bytes, child + 2) as usize;
+    let node: Vec<u8> = bytes[child..child + 4 + 24 * cc].to_vec();
+    let new_pos = bytes.len() as u64;
+    bytes.extend_from_slice(&node);
+    bytes[ptr_at..ptr_at + 8].copy_from_slice(&new_pos.to_le_bytes());
+    let mut out = tempfile::NamedTempFile::new().map_err(|e| e.to_string())?;
+    out.write_all(&bytes).unwrap();
+    out.flush().unwrap();
+    let mut r = BigWigRead::open_file(out.path()).map_err(|e| format!("open: {}", e))?;
+    let last = vals[vals.len() - 1];
+    let got: Vec<_> = r.get_interval("chr1", last.0, last.1).map_err(|e| format!("query of a well-formed file whose last structure is a non-leaf node failed: {}", e))?
+        .collect::<Result<Vec<_>, _>>().map_err(|e| format!("read: {}", e))?;
+    if got.len() != 1 || got[0].start != last.0 || got[0].end != last.1 { return Err(format!("expected the last value {:?}, got {:?}", last, got)); }
+    Ok(())
+}
+pub fn gen_nonleaf_at_eof(r: &mut Rng) -> String { format!("n={}", r.range(5, 12)) }
